@@ -88,7 +88,11 @@ def single_site(ctx):
             if rv["k"] == "aggregate" and rv.get("agg") == "adt" and rv["adt"] == "response::StatusCode" and rv["variant"] == "Continue":
                 sites.append((fn.name, fn.loc(bi, si)))
     where = sorted({s[0] for s in sites})
-    ctx.ob("R13.3", "continue-constructed-once", len(sites) == 1 and where == [conn.PARSE_H], "StatusCode::Continue is constructed at %d site(s): %s" % (len(sites), where))
+    from .util import roots_of
+    roots = set()
+    for f in where:
+        roots |= roots_of(facts, f) or {f}
+    ctx.ob("R13.3", "continue-constructed-once", len(sites) == 1 and roots == {conn.PARSE_H}, "StatusCode::Continue is constructed at %d site(s): %s (on behalf of %s)" % (len(sites), where, sorted(roots)))
     # nobody else pushes onto the response queue from the read side
     rs = []
     for name in (conn.TRY_READ, conn.PARSE_RL, conn.PARSE_B, conn.READ_BYTES, conn.SHIFT):
